@@ -143,7 +143,7 @@ def ex_total_layer(d, k):
     return None
 
 
-from pyvc.interp import Env, PyRaise   # noqa: E402
+from pyvc.interp import Env, PyRaise, Unsupported   # noqa: E402
 CONTRACTS['rewriting.interchange'].abstract = _abstract_interchange
 
 
@@ -405,3 +405,116 @@ _c = Contract('rewriting.interchange', params=_p_interchange_far, ensures=_e_int
               loops={0: _far_loop(True), 1: _far_loop(False)}, property_ids=('C05', 'C01'))
 _c.label = 'rewriting.interchange[far]'
 CONTRACTS[_c.label] = _c
+
+
+# ---------------------------------------------------------------- rewriting.normal_form (C06: cycle detection)
+#
+# normal_form drives a normaliser (a generator of diagrams) and remembers every diagram it has seen.  Diagrams are
+# abstracted to their identity under `==` (an equivalence compatible with hash: C03), the generator to an arbitrary
+# finite sequence s[0..n) of such identities (every prefix of an infinite trace is one), the `cache` set to the prefix of
+# s added so far.  Contract, from the property statement:
+#   returns  =>  no diagram was yielded twice and the result is the last yielded diagram (the input if none);
+#   raises   =>  NotImplementedError, and some diagram really was yielded twice (s[w] == s[k], w < k): a repeated
+#                diagram is the only reason to give up, and it is noticed at the first repetition.
+# Hence on an eventually periodic trace (the only way normalize can fail to terminate on a finite interchanger class)
+# the call raises NotImplementedError instead of looping.  That normalize terminates on connected diagrams is not
+# proved (bounded driver).
+
+def _nf_params(ex):
+    n = z3.Int('trace.n')
+    ex.assume(n >= 0)
+    did = z3.Function('trace.id', T.IntS, T.IntS)
+    base = ex.register_base(BaseList('trace', n, lambda i: VInt(did(i)), 'int'))
+    ex.set_source = base
+    ex.nf = {'base': base, 'did': did, 'n': n, 'self': z3.Int('self.id')}
+    return [VInt(ex.nf['self'])], {}
+
+
+def _abstract_normalize(interp, args, kwargs):
+    ex = interp.ex
+    if getattr(ex, 'nf', None) is None:
+        raise Unsupported('normalize called outside the normal_form contract')
+    return VList.of_base(ex.nf['base'])
+
+
+def _nf_current(ex, k):
+    nf = ex.nf
+    if T.int_val(k) == 0:
+        return nf['self']
+    return z3.If(k == 0, nf['self'], nf['did'](z3.simplify(k - 1)))
+
+
+def _nf_assume(interp, env, k, seq=None, at_exit=False):
+    ex = interp.ex
+    nf = ex.nf
+    inv = z3.Function(T.fresh_name('first_index'), T.IntS, T.IntS)
+    nf['inv'] = inv
+    did = nf['did']
+    # the diagrams seen so far are pairwise different: they have a left inverse
+    ex.add_qhyp([nf['base']], lambda i: [(z3.And(0 <= i, i < k), inv(did(i)) == i)])
+    env.set('cache', VObject('set', {'base': nf['base'], 'k': k}))
+    env.set('diagram', VInt(_nf_current(ex, k)))
+
+
+def _nf_check(interp, env, k, label, seq=None):
+    ex = interp.ex
+    nf = ex.nf
+    did = nf['did']
+    if not (env.has('cache') and env.has('diagram')):
+        # the invariant is stated over the locals `cache` and `diagram`; without them nothing is decided here
+        raise Unsupported('the loop invariant of normal_form is stated over its locals `cache` and `diagram`')
+    cache, diagram = env.lookup('cache'), env.lookup('diagram')
+    if not (isinstance(cache, VObject) and cache.cls == 'set'):
+        ex.prove(label + ':cache is the set of the diagrams seen', False)
+        return
+    ex.prove(label + ':cache holds exactly the diagrams yielded so far', cache.attrs['k'] == k)
+    ex.prove(label + ':diagram is the last diagram yielded (the input before the first)', diagram.t == _nf_current(ex, k))
+    if label.endswith('entry'):
+        return
+    old = nf['inv']
+    last = z3.simplify(k - 1)
+
+    def inj(i):
+        ex.list_at(VList.of_base(nf['base']), i)            # touch index i: instantiates the hypotheses about s[i]
+        new = z3.If(did(i) == did(last), last, old(did(i)))
+        ex.prove(label + ':the diagrams seen so far stay pairwise different', new == i)
+    ex.forall(k, inj)
+
+
+def _nf_ensures(interp, args, kwargs, result):
+    ex = interp.ex
+    nf = ex.nf
+    did, n = nf['did'], nf['n']
+    ex.prove('C06:normal_form returns the last diagram yielded (the input if none)',
+             result.t == z3.If(n == 0, nf['self'], did(n - 1)))
+
+    def outer(j):
+        def inner(i):
+            lst = VList.of_base(nf['base'])
+            ex.list_at(lst, i)
+            ex.list_at(lst, j)
+            ex.prove('C06:normal_form returns only if no diagram was yielded twice', did(i) != did(j))
+        ex.forall(j, inner)
+    ex.forall(n, outer)
+
+
+def _nf_on_raise(interp, args, kwargs, exc):
+    ex = interp.ex
+    nf = ex.nf
+    ex.prove('C06:the only exception of normal_form is NotImplementedError (raised %s)' % exc,
+             z3.BoolVal(exc == 'NotImplementedError'))
+    wit = getattr(ex, 'member_witness', None)
+    if wit is None:
+        ex.prove('C06:normal_form gives up only on a diagram it has seen before', False)
+        return
+    m, w, x = wit
+    did, n = nf['did'], nf['n']
+    k = T.fresh('k', T.IntS)
+    # x is the diagram being examined: s[k] for the current iteration k; the witness w < k has the same identity
+    ex.prove('C06:normal_form gives up only on a diagram it has seen before',
+             z3.And(m, 0 <= w, w < n, did(w) == x.t))
+
+
+CONTRACTS['rewriting.normalize'].abstract = _abstract_normalize
+contract('rewriting.normal_form', params=_nf_params, ensures=_nf_ensures, on_raise=_nf_on_raise,
+         loops={0: LoopSpec(assume=_nf_assume, check=_nf_check)}, property_ids=('C06',))
